@@ -10,6 +10,13 @@
 //   {"op":"rset","o":order}                             reader.setEndian
 //   {"op":"r","t":type,"v":[msb..lsb]}                  reader >> value
 //   {"op":"rs","n":n,"s":[bytes]}                       reader.read(n)
+// The caller's long-lived objects (the specification's pool): scalar variables, Array<T> objects (with a second handle
+// sharing the buffer) and Strings that are created once and written repeatedly:
+//   {"op":"new","k":"w"|"wa"|"ws","t":type,"a":[[..],..]}   the caller creates object number (count so far)+1
+//   {"op":"pset","i":i,"j":j,"v":[msb..lsb]}                 the caller assigns to element j of object i
+//   {"op":"wp","i":i,"d":[bytes],"p":[[..],..]}              writer << object i; d as above, p = the value the object
+//                                                            holds after the call (projected, not computed)
+//   {"op":"pchk","i":i,"p":[[..],..]}                        the value object i holds now (after any other call)
 // spec/Trace_EndianStream.tla validates the log against the EndianStream actions (expected bytes and values are
 // computed by TLC from the logged arguments).
 #include "c16_common.h"
@@ -52,6 +59,13 @@ static void die(const std::string& msg)
 	_exit(3); // no leak report: the message is the finding
 }
 
+static std::string elemsJson(const std::vector<std::string>& el)
+{
+	std::string js = "[";
+	for (size_t i = 0; i < el.size(); i++) js += (i ? "," : "") + vj::codes(el[i]);
+	return js + "]";
+}
+
 struct Pending { int kind; std::string t; int n; std::string order; }; // kind 0 scalar, 1 array (n elements), 2 string (n bytes)
 
 template <class S>
@@ -65,6 +79,66 @@ struct Exec
 	size_t seen; // bytes observed on the sink so far
 	bool reading;
 	bool avoidNative;
+	Pool pool;
+
+	void newObject()
+	{
+		int k = rng.below(100);
+		std::string t = TYPES[rng.below(12)];
+		std::string kind = k < 25 ? "w" : k < 85 ? "wa" : "ws";
+		std::vector<std::string> el;
+		if (kind == "w") el.push_back(pattern(rng, t));
+		else if (kind == "wa")
+		{
+			int n = rng.chance(8) ? 0 : rng.chance(50) ? rng.range(1, 4) : rng.chance(70) ? rng.range(5, 24) : rng.range(90, 100);
+			for (int i = 0; i < n; i++) el.push_back(pattern(rng, t));
+		}
+		else
+		{
+			t = "ch";
+			int n = rng.chance(10) ? 0 : rng.range(1, 40);
+			for (int i = 0; i < n; i++) el.push_back(std::string(1, (char)rng.range(1, 255)));
+		}
+		Obj* o = newObj(kind, t, el);
+		if (!o) die("harness: cannot create an object");
+		pool.objs.push_back(o);
+		log.line("{\"op\":\"new\"," + ks("k", kind) + "," + ks("t", t) + ",\"a\":" + elemsJson(el) + "}");
+	}
+
+	void checkObject()
+	{
+		int i = rng.below((int)pool.objs.size());
+		log.line("{\"op\":\"pchk\"," + kv("i", i + 1) + ",\"p\":" + elemsJson(pool.objs[(size_t)i]->elems(rng.below(2))) + "}");
+	}
+
+	void assignObject()
+	{
+		int i = rng.below((int)pool.objs.size());
+		Obj* o = pool.objs[(size_t)i];
+		if (o->size() == 0) return;
+		int j = rng.chance(30) ? 0 : rng.chance(40) ? (int)o->size() - 1 : rng.below((int)o->size());
+		std::string v = o->kind == "ws" ? std::string(1, (char)rng.range(1, 255)) : pattern(rng, o->type);
+		o->set((size_t)j, v);
+		log.line("{\"op\":\"pset\"," + kv("i", i + 1) + "," + kv("j", j + 1) + ",\"v\":" + vj::codes(v) + "}");
+	}
+
+	// writer << one of the long-lived objects; false if nothing was written
+	bool writeObject()
+	{
+		int i = rng.below((int)pool.objs.size());
+		Obj* o = pool.objs[(size_t)i];
+		if (avoidNative && o->kind == "wa" && o->size() > 0 && sizeOfType(o->type) > 1 && wo != "BIG") return false; // open finding NativeOrderArrayLength
+		putObj(s, o, rng.below(2));
+		std::string d = delta();
+		Pending p;
+		p.order = wo;
+		p.t = o->type;
+		p.kind = o->kind == "w" ? 0 : o->kind == "wa" ? 1 : 2;
+		p.n = (int)o->size();
+		q.push_back(p);
+		log.line("{\"op\":\"wp\"," + kv("i", i + 1) + ",\"d\":" + vj::codes(d) + ",\"p\":" + elemsJson(o->elems(rng.below(2))) + "}");
+		return true;
+	}
 
 	Exec(Rng& r, Log& l, const TmpDir& d, bool av) : rng(r), log(l), s(d), seen(0), reading(false), avoidNative(av) {}
 
@@ -83,6 +157,14 @@ struct Exec
 			wo = ORDERS[rng.below(3)];
 			s.wset(endianOf(wo));
 			log.line("{\"op\":\"set\"," + ks("o", wo) + "}");
+		}
+		if (pool.objs.size() < 6 && rng.chance(pool.objs.empty() ? 40 : 4)) newObject();
+		if (!pool.objs.empty())
+		{
+			if (rng.chance(10)) assignObject();
+			bool done = rng.chance(40) && writeObject();
+			if (rng.chance(15)) checkObject();
+			if (done) return;
 		}
 		int k = rng.below(100);
 		std::string t = TYPES[rng.below(12)];
@@ -126,6 +208,7 @@ struct Exec
 			log.line("{\"op\":\"ws\",\"s\":" + vj::codes(b) + ",\"d\":" + vj::codes(delta()) + "}");
 		}
 		q.push_back(p);
+		if (!pool.objs.empty() && rng.chance(10)) checkObject();
 	}
 
 	// reads the next written item back with its own types
@@ -143,6 +226,7 @@ struct Exec
 		{
 			std::string b = s.getRaw(p.n, rng.below(2));
 			log.line("{\"op\":\"rs\"," + kv("n", p.n) + ",\"s\":" + vj::codes(b) + "}");
+			if (!pool.objs.empty() && rng.chance(5)) checkObject();
 			return;
 		}
 		// mostly the byte order the item was written with (the property); sometimes another one (the specification
@@ -160,6 +244,7 @@ struct Exec
 			getScalar(s, p.t, v);
 			log.line("{\"op\":\"r\"," + ks("t", p.t) + ",\"v\":" + vj::codes(v) + "}");
 		}
+		if (!pool.objs.empty() && rng.chance(5)) checkObject();
 	}
 
 	void run(int items, bool interleave)
@@ -170,6 +255,8 @@ struct Exec
 			if (interleave) while (!q.empty() && rng.chance(40)) readOne();
 		}
 		while (!q.empty()) readOne();
+		for (size_t i = 0; i < pool.objs.size(); i++) // every object once more at the end
+			log.line("{\"op\":\"pchk\"," + kv("i", (int)i + 1) + ",\"p\":" + elemsJson(pool.objs[i]->elems((int)(i & 1))) + "}");
 		if (s.unread() != 0)
 			die(std::string(S::name()) + ": " + std::to_string(s.unread()) + " bytes left in the stream after everything was read back");
 	}
